@@ -10,6 +10,7 @@ import (
 	"encoding/binary"
 	"encoding/hex"
 	"fmt"
+	"reflect"
 	"sort"
 	"strconv"
 	"strings"
@@ -187,6 +188,33 @@ func newSelector(ss []shard) (sel sharding.ShardSelector, reply string) {
 	return sel, "ok"
 }
 
+// dumpSelector reads the unexported shard list of the real selector: "<hash>:<weight>:<index> ...".
+func dumpSelector(sel sharding.ShardSelector) (out string, ok bool) {
+	defer func() {
+		if recover() != nil {
+			out, ok = "", false
+		}
+	}()
+	v := reflect.ValueOf(sel)
+	if v.Kind() != reflect.Ptr || v.Elem().Kind() != reflect.Struct || v.Elem().NumField() != 1 {
+		return "", false
+	}
+	l := v.Elem().FieldByName("shards")
+	if !l.IsValid() || l.Kind() != reflect.Slice {
+		return "", false
+	}
+	var parts []string
+	for i := 0; i < l.Len(); i++ {
+		e := l.Index(i)
+		h, wt, ix := e.FieldByName("hash"), e.FieldByName("weight"), e.FieldByName("index")
+		if !h.IsValid() || !wt.IsValid() || !ix.IsValid() || e.NumField() != 3 {
+			return "", false
+		}
+		parts = append(parts, fmt.Sprintf("%d:%d:%d", h.Uint(), wt.Uint(), ix.Int()))
+	}
+	return strings.Join(parts, " "), true
+}
+
 func getShard(sel sharding.ShardSelector, n int, h uint64) (idx int, panicked string) {
 	idx = -1
 	panicked = guard(func() { idx = sel.GetShard(h) })
@@ -296,7 +324,14 @@ func (b *recBackend) Get(ctx context.Context, d digest.Digest) buffer.Buffer {
 }
 
 func (b *recBackend) GetFromComposite(ctx context.Context, parent, child digest.Digest, slicer slicing.BlobSlicer) buffer.Buffer {
-	return buffer.NewBufferFromError(status.Error(codes.Unimplemented, "not part of C12"))
+	b.st.mu.Lock()
+	b.st.calls = append(b.st.calls, recCall{"getc", b.idx, []string{digestTok(parent), digestTok(child)}})
+	code, fail := b.st.gp[b.idx]
+	b.st.mu.Unlock()
+	if fail {
+		return buffer.NewBufferFromError(injected(code, b.idx))
+	}
+	return buffer.NewValidatedBufferFromByteSlice([]byte("child"))
 }
 
 func (b *recBackend) Put(ctx context.Context, d digest.Digest, buf buffer.Buffer) error {
@@ -407,6 +442,8 @@ func showCalls(cs []recCall) string {
 		switch c.kind {
 		case "fm":
 			parts = append(parts, fmt.Sprintf("%d=[%s]", c.idx, strings.Join(c.toks, ",")))
+		case "getc":
+			parts = append(parts, fmt.Sprintf("getc%d=%s>%s", c.idx, c.toks[0], c.toks[1]))
 		default:
 			parts = append(parts, fmt.Sprintf("%s%d=%s", c.kind, c.idx, c.toks[0]))
 		}
@@ -756,6 +793,68 @@ func execute(script []string, permLimit int) *caseResult {
 				continue
 			}
 			emit(line, "ok")
+		case "dump":
+			// the constructor's stored list, read through reflection (skipped when the selector has
+			// another shape: then there is nothing to compare, the behavioural checks remain)
+			if s.sel == nil {
+				emit(line, "bad-op")
+				continue
+			}
+			if d, ok := dumpSelector(s.sel); ok {
+				emit(line, d)
+			}
+		case "getc":
+			if len(w) != 3 {
+				continue
+			}
+			pd, first8, ok1 := parseDigest(w[1])
+			cd, _, ok2 := parseDigest(w[2])
+			if !ok1 || !ok2 {
+				continue
+			}
+			if s.ba == nil {
+				emit(line, "bad-op")
+				continue
+			}
+			st.calls = nil
+			var err error
+			if p := guard(func() { _, err = s.ba.GetFromComposite(context.Background(), pd, cd, nil).ToByteSlice(1000) }); p != "" {
+				res.fail("the sharding composite panicked", fmt.Sprintf("%s: %s", line, p))
+				emit(line, "panic")
+				continue
+			}
+			calls := append([]recCall{}, st.calls...)
+			reply := showCalls(calls)
+			want, _ := getShard(s.ref, len(s.shards), first8)
+			if len(calls) != 1 || calls[0].kind != "getc" || calls[0].toks[0] != w[1] || calls[0].toks[1] != w[2] {
+				res.fail("GetFromComposite did not result in exactly one identical call on one backend", fmt.Sprintf("%s: calls %s", line, reply))
+			} else {
+				if calls[0].idx != want {
+					res.fail("GetFromComposite addressed a backend other than the one holding the parent object",
+						fmt.Sprintf("%s: backend %d, the selector assigns the parent's leading hash bytes to %d", line, calls[0].idx, want))
+				}
+				observeRoute(first8, calls[0].idx, "GetFromComposite", w[1])
+				code, fails := st.gp[calls[0].idx]
+				if fails {
+					c, key, origin := errInfo(err)
+					if err == nil {
+						res.fail("a backend error was swallowed by the sharding composite", line)
+					} else if origin != calls[0].idx || c != code || key != s.shards[calls[0].idx].key {
+						res.fail("an error returned through the sharding composite does not carry the failing shard's key and code",
+							fmt.Sprintf("%s: got %v, failing backend %d key %q code %d", line, err, calls[0].idx, s.shards[calls[0].idx].key, code))
+					}
+				} else if err != nil {
+					res.fail("the sharding composite reported an error although the backend succeeded", fmt.Sprintf("%s: %v", line, err))
+				}
+			}
+			if err != nil {
+				c, key, _ := errInfo(err)
+				reply += fmt.Sprintf(" error %d shard %s", c, key)
+			} else {
+				reply += " ok"
+			}
+			res.nontrivial = true
+			emit(line, reply)
 		case "get", "put":
 			if len(w) != 2 {
 				continue
@@ -1088,7 +1187,7 @@ func genSelectorCase(r *hx.Rand, run *hx.Run, maxN int, tie bool) []string {
 		}
 	}
 	run.Count(fmt.Sprintf("shards:%d", n))
-	script := []string{selLine(ss)}
+	script := []string{selLine(ss), "dump"}
 	hs := genHashes(r, ss, r.Range(4, 10), run)
 	if tie {
 		for k := 0; k < 2; k++ {
@@ -1192,6 +1291,74 @@ func genAlmostUniformCase(r *hx.Rand, run *hx.Run, maxN int) []string {
 		script = append(script, fmt.Sprintf("getshard %d", h))
 	}
 	script = append(script, fmt.Sprintf("#add %d %s %s", r.Intn(len(rest)+1), ss[odd].tok(), hashWords(hs)))
+	return script
+}
+
+// findNearTie searches an object hash on which the two best shards tie when every weight is
+// divided by `factor`, although their real scores differ: the fixed point quotient is coarser for
+// smaller weights, so such objects sit exactly where a rescaling of the weights changes the winner.
+func findNearTie(r *hx.Rand, ss []shard, factor uint32, budget int) (uint64, bool) {
+	for t := 0; t < budget; t++ {
+		h := r.Uint64()
+		var best, second, fbest, fsecond uint64
+		for _, sh := range ss {
+			x := realSplitmix64(sh.kh ^ h)
+			if x>>63 != 0 {
+				// divisors <= 2^16 give distinct quotients for every weight: no near-tie up here
+				best = 0
+				break
+			}
+			sc := realScore(x, sh.w/factor)
+			if sc > best {
+				best, second, fbest, fsecond = sc, best, realScore(x, sh.w), fbest
+			} else if sc > second {
+				second, fsecond = sc, realScore(x, sh.w)
+			}
+		}
+		if best != 0 && best == second && fbest != fsecond {
+			return h, true
+		}
+	}
+	return 0, false
+}
+
+// genCommonFactorCase: weights with a common factor (all equal and > 1, or multiples of 2..100 or
+// 2^16), object hashes at near-ties (see findNearTie) besides the usual ones, and the additions /
+// removals that change the common factor: a shard of coprime weight is added to the list, and
+// removed again from the longer list.
+func genCommonFactorCase(r *hx.Rand, run *hx.Run, maxN int) []string {
+	n := r.Range(2, 3)
+	ss := genShards(r, n)
+	g := uint32(r.PickInt(2, 3, 10, 100, 100, 1000, 65536))
+	for i := range ss {
+		ss[i].w = g
+		if r.Chance(1, 4) {
+			ss[i].w = g * uint32(r.Range(1, 3))
+		}
+	}
+	run.Count(fmt.Sprintf("shards:%d", n))
+	run.Count("map:weights-with-common-factor")
+	var hs []uint64
+	for k := 0; k < 3; k++ {
+		if h, ok := findNearTie(r, ss, g, 1<<20); ok {
+			hs = append(hs, h)
+			run.Count("hash:near-tie-under-rescaled-weights")
+		} else {
+			run.Count("hash:tie-search-gave-up")
+		}
+	}
+	hs = append(hs, genHashes(r, ss, 3, run)...)
+	script := []string{selLine(ss), "dump"}
+	for _, h := range hs {
+		script = append(script, fmt.Sprintf("getshard %d", h))
+	}
+	script = append(script, "#perm "+hashWords(hs), "#remove "+hashWords(hs))
+	nk := fmt.Sprintf("new%d", r.Intn(100000))
+	ns := shard{key: nk, kh: hashServer(nk), w: uint32(r.PickInt(1, 1, int(g)+1, 7))}
+	pos := r.Intn(n + 1)
+	script = append(script, fmt.Sprintf("#add %d %s %s", pos, ns.tok(), hashWords(hs)))
+	long := append(append(append([]shard{}, ss[:pos]...), ns), ss[pos:]...)
+	script = append(script, selLine(long), "dump", "#remove "+hashWords(hs))
 	return script
 }
 
@@ -1299,13 +1466,18 @@ func genAccessCase(r *hx.Rand, run *hx.Run, maxN int) []string {
 		switch x := r.Intn(10); {
 		case x < 5:
 			script = append(script, strings.TrimSpace("fm "+strings.Join(subset(r.PickInt(0, 30, 60, 100)), " ")))
-		case x < 7:
+		case x < 6:
 			script = append(script, "get "+pool[r.Intn(len(pool))])
-		case x < 9:
+		case x < 7:
 			script = append(script, "put "+pool[r.Intn(len(pool))])
+		case x < 9:
+			// a composite read: parent and child are different objects, usually of different shards
+			script = append(script, "getc "+pool[r.Intn(len(pool))]+" "+pool[r.Intn(len(pool))])
+			run.Count("op:GetFromComposite")
 		default:
 			t := pool[r.Intn(len(pool))]
-			script = append(script, "get "+t, "put "+t, "fm "+t, "route "+strings.Split(t, ":")[1])
+			script = append(script, "get "+t, "put "+t, "fm "+t, "getc "+t+" "+pool[r.Intn(len(pool))], "route "+strings.Split(t, ":")[1])
+			run.Count("op:GetFromComposite")
 		}
 	}
 	return script
@@ -1431,8 +1603,8 @@ func TestC12(t *testing.T) {
 	defer model.Close()
 	run.HasModel = model != nil
 	run.SetRule("shard maps of 1..5 shards (weights 1, 2, 2^32-1, random), object hashes aimed at the boundaries of the fixed point score " +
-		"(by inverting splitmix64), exact score ties, maps whose weights are all equal but one, every permutation / removal / one addition per map; composites over recording " +
-		"backends with scripted FindMissing/Get/Put faults, sibling digests sharing their leading 8 hash bytes and cousin digests sharing only 1..7; " +
+		"(by inverting splitmix64), exact score ties, maps whose weights are all equal but one or share a common factor (with near-tie hashes), every permutation / removal / one addition per map; composites over recording " +
+		"backends with scripted FindMissing/Get/Put/GetFromComposite faults, sibling digests sharing their leading 8 hash bytes and cousin digests sharing only 1..7; " +
 		"a case is non-trivial when it exercises permutation/removal/addition on >= 2 shards or an operation of the composite; distinct by script hash")
 	permN := run.Scale(4, 5)
 	permLimit := 120
@@ -1539,6 +1711,10 @@ func TestC12(t *testing.T) {
 	for i := 0; i < run.Scale(150, 2000) && !enough(); i++ {
 		r := hx.NewRand(run.Seed, "C12-almost-uniform", i)
 		handle(fmt.Sprintf("seed%d/almostuniform%d", run.Seed, i), genAlmostUniformCase(r, run, permN))
+	}
+	for i := 0; i < run.Scale(120, 1500) && !enough(); i++ {
+		r := hx.NewRand(run.Seed, "C12-common-factor", i)
+		handle(fmt.Sprintf("seed%d/commonfactor%d", run.Seed, i), genCommonFactorCase(r, run, permN))
 	}
 	for i := 0; i < run.Scale(40, 400) && !enough(); i++ {
 		handle(fmt.Sprintf("seed%d/ctor%d", run.Seed, i), genCtorCase(hx.NewRand(run.Seed, "C12-ctor", i), run))
